@@ -7,16 +7,23 @@
 (*   Reset t                  a new type under observation                 *)
 (*   Methods t ms             the exported methods of the COMPILED type,   *)
 (*                            sorted: must be the table's public methods   *)
-(*   Footprint t m p blocked after                                         *)
+(*   Footprint t m p mode blocked after                                    *)
 (*                            method m called while the lock of the object *)
 (*                            at path p (<<>> = the instance) was held by  *)
 (*                            the harness: it parked on the instance lock  *)
 (*                            iff the table says executing m takes it (on  *)
 (*                            a sub-object's lock only if the table says   *)
-(*                            so); once released, the call came back       *)
+(*                            so); once released, the call came back.      *)
+(*                            mode "shared" (a readers-writer lock held in *)
+(*                            shared mode): it parked iff the table says m *)
+(*                            takes the lock in EXCLUSIVE mode; mode       *)
+(*                            "none" (the table knows no lock of the type: *)
+(*                            nothing was held): it did not park           *)
 (*   Outcome t m on out then  m called on an instance in state on          *)
 (*                            (populated first; then empty, growing, full  *)
-(*                            where the call can be made): returned |      *)
+(*                            where the call can be made; self: m handed   *)
+(*                            its own receiver; cross: a.m(b) against      *)
+(*                            b.with(a) on two goroutines): returned |     *)
 (*                            panicked; NO action for timeout.             *)
 (*                            then = outcome of a lock-taking call made    *)
 (*                            afterwards (a method that kept the lock)     *)
@@ -38,8 +45,8 @@ VARIABLES l,     \* cursor
           ph     \* "closed" | "open" (history begun) | "ran" (a concurrent program was executed)
 tvars == <<vars, l, ms, cur, ph>>
 
-TraceInit == /\ scen = [ty |-> "", ms |-> <<>>] /\ stk = Idle /\ held = [t \in Threads |-> {}]
-             /\ secs = [t \in Threads |-> 0]
+TraceInit == /\ scen = [kind |-> "", ty |-> "", ms |-> <<>>] /\ stk = Idle /\ held = [t \in Threads |-> <<>>]
+             /\ pend = [t \in Threads |-> <<>>] /\ secs = [t \in Threads |-> 0]
              /\ l = 1 /\ HwmInit /\ ms = <<>> /\ cur = 0 /\ ph = "closed"
 
 e == Trace[l]
@@ -60,9 +67,15 @@ TraceFootprint ==
   /\ Has(e, "m") /\ Has(e, "p") /\ Has(e, "blocked")
   /\ IF cur = Len(ms) THEN cur' = 1 ELSE cur' = cur + 1
   /\ e.m = ms[cur']
-  /\ IF e.p = <<>> THEN e.blocked = Takes(e.t, e.m, e.p)      \* the instance lock: exactly
-                    ELSE e.blocked => Takes(e.t, e.m, e.p)     \* a sub-object's: the flattened table
-                                                               \* says "may take" (short-circuits, branches)
+  /\ LET mode == IF Has(e, "mode") THEN e.mode ELSE "excl" IN
+     /\ mode \in {"excl", "shared", "none"}
+     /\ (e.p = <<>> /\ mode = "shared") => LockKind(e.t) = "rwmutex"    \* only such a lock has a shared mode
+     /\ (e.p = <<>> /\ mode = "none") => LockKind(e.t) = "none"
+     /\ IF mode = "none" THEN ~e.blocked                                \* nothing was held
+        ELSE IF e.p = <<>>                                             \* the instance lock: exactly
+             THEN e.blocked = (IF mode = "shared" THEN TakesX(e.t, e.m, e.p) ELSE Takes(e.t, e.m, e.p))
+             ELSE e.blocked => Takes(e.t, e.m, e.p)                    \* a sub-object's: the flattened table
+                                                                       \* says "may take" (short-circuits, branches)
   /\ UNCHANGED <<ms, ph>>
 \* each method on a populated instance, then (where it can be called) in the other states:
 \* empty; growing (fresh keys across the re-hash thresholds); full (bound in force and reached)
